@@ -535,4 +535,34 @@ example : tarRun false [] [(1, 0, .pack 11), (2, 0, .pack 22), (1, 0, .ship), (1
 example : tarRun true [] [(1, 0, .pack 11), (2, 0, .pack 22), (1, 0, .ship), (1, 0, .remove), (2, 0, .ship)]
     = [(1, some 11), (2, some 22)] := by decide
 
+/-! ## every pilot of a session has a sandbox of its own -/
+
+theorem pilotSandboxes_spec (sess : Nat) (cache : List (Nat × (Nat × Nat))) (pids : List Nat)
+    (hc : ∀ e ∈ cache, e.2 = (sess, e.1)) :
+    pilotSandboxes sess cache pids = pids.map (fun pid => (sess, pid)) := by
+  induction pids generalizing cache with
+  | nil => rfl
+  | cons pid rest ih =>
+    simp only [pilotSandboxes, List.map_cons]
+    cases hf : cache.find? (fun e => e.1 = pid) with
+    | some e =>
+      have hm := List.mem_of_find?_eq_some hf
+      have hk : e.1 = pid := by have := List.find?_some hf; simpa using this
+      simp only [pilotSandbox, hf]
+      rw [hc e hm, hk, ih cache hc]
+    | none =>
+      simp only [pilotSandbox, hf]
+      rw [ih]
+      intro e he
+      rcases List.mem_append.mp he with he | he
+      · exact hc e he
+      · simp at he; subst he; rfl
+
+/-- **whatever the order in which the pilots of a session ask for their sandboxes, and however often, pilot
+    `pid` is given `<session sandbox>/<pid>`** - in particular two pilots never share one (the directory of a
+    task, `<pilot sandbox>/<task uid>`, and every `pilot:///` target are resolved against it) -/
+theorem C11_pilot_sandbox_own (sess : Nat) (pids : List Nat) :
+    pilotSandboxes sess [] pids = pids.map (fun pid => (sess, pid)) :=
+  pilotSandboxes_spec sess [] pids (by simp)
+
 end RPVerif.C11
